@@ -51,8 +51,8 @@ func init() {
 			"@fp.Json structs: for a struct target 'unchanged on error' is checked on the whole struct: the generated UnmarshalJSON decodes into a Mutable copy and assigns only on success",
 		)
 		r.Extra["json_struct_bounds"] = map[string]any{
-			"shapes":   len(shapes),
-			"packages": len(pkgs),
+			"shapes":       len(shapes),
+			"packages":     len(pkgs),
 			"tag_variants": []string{"none", `json:"x"`, `json:"x,omitempty"`, `json:",omitempty"`, `json:"-"`, `fp:"String.Exclude"`, `db:"json_col"` + " (contains the substring json)", `fp:"String.Exclude" json:"x"`},
 		}
 		r.Extra["uncovered"] = []string{
